@@ -1,6 +1,7 @@
 import Req.Driver.L.C18Codec
 import Req.Driver.L.C18Pipe
 import Req.Driver.L.C18Clone
+import Req.Driver.L.C18Finish
 /-! Driver lanes of C18 (classification and binding; the pipeline lane is in `C18Pipe`). -/
 namespace Req.Driver.L.C18
 open Req.Proto Req.Result
@@ -47,7 +48,8 @@ def lanes : List (String × (List String → String)) := [
   ("c18bind", laneBind),
   ("c18pipe", lanePipe),
   ("c18clone", laneClone),
-  ("c18consume", laneConsume)
+  ("c18consume", laneConsume),
+  ("c18finish", laneFinish)
 ]
 
 end Req.Driver.L.C18
